@@ -190,6 +190,17 @@ def s_key_address():
 # ------------------------------------------------------------------ (b) cross acceptance
 
 
+def _load_collisions():
+    import json
+    import os
+    p = os.path.join(os.path.dirname(os.path.dirname(os.path.abspath(__file__))), "known_findings", "data", "C08_version_byte_collisions.json")
+    with open(p) as f:
+        return frozenset(tuple(t) for t in json.load(f)["triples"])
+
+
+KNOWN_COLLISIONS = _load_collisions()
+
+
 def _cross_diag(a, b, kind, h, s, c):
     """name the reason network b accepted network a's string s with a different meaning"""
     if kind in ("p2pkh", "p2sh"):
@@ -202,7 +213,11 @@ def _cross_diag(a, b, kind, h, s, c):
                     return LEN_BUCKET
                 exact.append(k2)
         if exact and kind not in exact:
-            return SHARED_VERSION_BYTE
+            # the listed finding covers exactly the collisions that exist between the registered networks today;
+            # any other pair is a new collision and gets its own bucket
+            if (a, b, kind) in KNOWN_COLLISIONS:
+                return SHARED_VERSION_BYTE
+            return "cross:new-version-byte-collision:%s-%s-%s" % (a, b, kind)
     return "cross:foreign-address-accepted"
 
 
@@ -514,7 +529,72 @@ def nt_classify(case, labels):
     return "standard" in labels
 
 
+# ------------------------------------------------------------------ network constants
+
+# version bytes / HRPs / extended-key versions as published by the projects themselves (Bitcoin Core chainparams, BIP32/49/84,
+# BIP173, Litecoin / Dogecoin / Dash chainparams).  Everything else is pinned by the snapshot (detects changes only).
+PUBLISHED = {
+    "BTC": {"address": "00", "p2sh": "05", "wif": "80", "hrp": "bc", "bip32_prv": "0488ade4", "bip32_pub": "0488b21e",
+            "bip49_prv": "049d7878", "bip49_pub": "049d7cb2", "bip84_prv": "04b2430c", "bip84_pub": "04b24746"},
+    "XTN": {"address": "6f", "p2sh": "c4", "wif": "ef", "hrp": "tb", "bip32_prv": "04358394", "bip32_pub": "043587cf",
+            "bip49_prv": "044a4e28", "bip49_pub": "044a5262", "bip84_prv": "045f18bc", "bip84_pub": "045f1cf6"},
+    "LTC": {"address": "30", "p2sh": "32", "wif": "b0", "hrp": "ltc", "bip32_prv": "019d9cfe", "bip32_pub": "019da462"},
+    "DOGE": {"address": "1e", "p2sh": "16", "wif": "9e", "bip32_prv": "02fac398", "bip32_pub": "02facafd"},
+    "DASH": {"address": "4c", "p2sh": "10", "wif": "cc"},
+    "BCH": {"address": "00", "p2sh": "05", "wif": "80"},
+}
+
+
+def _load_snapshot():
+    import json
+    import os
+    p = os.path.join(os.path.dirname(os.path.dirname(os.path.abspath(__file__))), "oracles", "data", "netconstants_snapshot.json")
+    with open(p) as f:
+        return json.load(f)["networks"]
+
+
+SNAPSHOT = _load_snapshot()
+
+
+def _hexed(v):
+    return v.hex() if isinstance(v, (bytes, bytearray)) else v
+
+
+def cases_constants(tier):
+    for code in sorted(set(CODES) | set(SNAPSHOT)):
+        yield {"net": code}
+
+
+def o_constants(case):
+    code = case["net"]
+    if code not in SNAPSHOT:
+        _bad("network:not-in-snapshot", "network %s is registered but absent from oracles/data/netconstants_snapshot.json (regenerate the snapshot after reviewing its constants)" % code)
+    if code not in PFX:
+        _bad("network:disappeared", "network %s of the snapshot is no longer registered" % code)
+    got = {k: _hexed(v) for k, v in PFX[code].items()}
+    got["network_name"] = NETS[code].network_name
+    labels = ["published" if code in PUBLISHED else "snapshot-only"]
+    for field, want in sorted(PUBLISHED.get(code, {}).items()):
+        if got.get(field) != want:
+            _bad("network:constant!=published:%s:%s" % (code, field), "%s %s is %r, published value %r" % (code, field, got.get(field), want))
+    for field, want in sorted(SNAPSHOT[code].items()):
+        if got.get(field) != want:
+            _bad("network:constant!=snapshot:%s:%s" % (code, field), "%s %s is %r, snapshot value %r" % (code, field, got.get(field), want))
+    # the address API must use the same constants as the parse API: encode one hash per kind and decode it with the reference
+    h = hashlib.sha256(code.encode()).digest()
+    for kind in KINDS:
+        if not defines(code, kind):
+            continue
+        want_addr = refaddr.address_for(kind, h[:refaddr.HASHLEN[kind]], PFX[code])
+        got_addr = NETS[code].address.for_script(refaddr.script_for(kind, h[:refaddr.HASHLEN[kind]]))
+        if got_addr != want_addr:
+            _bad("network:address-api-uses-other-constants:%s:%s" % (code, kind), "%s address.for_script(%s) = %r, the parse API's constants give %r" % (code, kind, got_addr, want_addr))
+    return labels
+
+
 SUBCHECKS = [
+    SubCheck("network_constants", o_constants, cases=cases_constants, exhaustive=True, nontrivial=lambda c, l: True,
+             rule="every registered network: address / P2SH / WIF version bytes, Bech32 HRP, BIP32/49/84 version bytes, SEC text prefix and message name equal the committed snapshot, and for BTC, XTN, LTC, DOGE, DASH, BCH equal the values published by those projects; the address API encodes with the same constants the parse API reads"),
     SubCheck("encode_roundtrip", o_encode, strategy=s_encode, budget=(5000, 200000),
              rule="(network, kind with a defined prefix, hash): contract builder == byte template, address.for_script == reference "
                   "Base58Check/Bech32(m) of the network's prefix/HRP, parse.address(addr).script() == script, re-encoding identical; "
